@@ -587,12 +587,23 @@ pub fn run_worker<P: Property>(args: WorkerArgs) {
         };
         let mut runner = TestRunner::new_with_rng(cfg, TestRng::from_seed(RngAlgorithm::ChaCha, &seed));
         let failed = std::cell::Cell::new(false);
+        // wall-clock bound on *shrinking* only: once it is used up every further candidate counts as passing, so the
+        // library stops at the smallest failing case found so far (which did fail; a verdict is never derived from time)
+        let shrink_started: std::cell::Cell<Option<std::time::Instant>> = std::cell::Cell::new(None);
+        let shrink_budget = std::time::Duration::from_secs(args.tier.pick(150, 900));
         let done = std::cell::Cell::new(0u64);
         let stc = RefCell::new(&mut st);
         let envc = RefCell::new(&mut env);
         let harness_err: RefCell<Option<String>> = RefCell::new(None);
         let poolc = RefCell::new(&mut pool);
         let result = runner.run(&strategy, |spec| {
+            if failed.get() {
+                match shrink_started.get() {
+                    None => shrink_started.set(Some(std::time::Instant::now())),
+                    Some(t) if t.elapsed() > shrink_budget => return Ok(()),
+                    _ => {}
+                }
+            }
             let mut env = envc.borrow_mut();
             if risky {
                 let _ = std::fs::write(&current, serde_json::to_vec(&spec).unwrap_or_default());
